@@ -27,6 +27,12 @@ Min2(a, b) == IF a <= b THEN a ELSE b
 DerLike(n)  == IF n >= 4 THEN <<48, 130, 0, 2>> \o Rep(170, n - 4) ELSE Rep(48, n)
 DerShort(n) == IF n >= 3 THEN <<48, 129, 1>> \o Rep(187, n - 3) ELSE Rep(48, n)
 CborLike(n) == IF n >= 2 THEN <<162, 1>> \o Rep(246, n - 2) ELSE Rep(160, n)
+\* a complete short-form DER SEQUENCE of two INTEGERs (an ECDSA signature) followed by padding, and
+\* a chain: two complete long-form SEQUENCEs followed by one that is cut off
+DerSeqInt(n) == IF n >= 10 THEN <<48, 6, 2, 1, 5, 2, 1, 7>> \o Rep(0, n - 8) ELSE Rep(48, n)
+DerChain(n)  == IF n >= 30 THEN <<48, 130, 0, 4, 1, 2, 3, 4, 48, 130, 0, 3, 5, 6, 7, 48, 130, 1, 0>> \o Rep(9, n - 19) ELSE Rep(48, n)
+\* ... the third announces 1000 bytes and is cut off after n - 19
+DerChainCut(n) == IF n >= 30 THEN <<48, 130, 0, 4, 1, 2, 3, 4, 48, 130, 0, 3, 5, 6, 7, 48, 130, 3, 232>> \o Rep(9, n - 19) ELSE Rep(48, n)
 \* contents whose LAST bytes look like an encoding of their own: an empty map after a zero, a
 \* break, a null (code that recognises a situation by looking at the tail of the output)
 TailLike(n, tail) == IF n >= Len(tail) THEN Rep(1, n - Len(tail)) \o tail ELSE Rep(160, n)
@@ -37,7 +43,8 @@ ByteLens(max) == IF max < 0 THEN {0, 1, 23, 24, 255, 256, 300}
 BytesAlts(max) ==
     {Pattern(40, n) : n \in ByteLens(max)}
     \cup (LET m == IF max < 0 THEN 40 ELSE Min2(max, 40) IN
-          {DerLike(m), DerShort(m), CborLike(m), Rep(255, m), Rep(0, m)} \cup {TailLike(m, t) : t \in Tails})
+          {DerLike(m), DerShort(m), DerSeqInt(m), DerChain(m), DerChainCut(m), CborLike(m), Rep(255, m), Rep(0, m)} \cup {TailLike(m, t) : t \in Tails})
+    \cup (IF max < 0 \/ max >= 300 THEN {DerChain(300), DerChainCut(300), DerSeqInt(300)} ELSE {})
 
 Euro == <<226, 130, 172>>
 TextLens(max) == IF max < 0 THEN {0, 1, 23, 24, 255, 256, 300}
@@ -46,13 +53,41 @@ TextLens(max) == IF max < 0 THEN {0, 1, 23, 24, 255, 256, 300}
 \* source's own dictionary alone and as a prefix of a longer text (code that recognises a scheme, a
 \* magic identifier, a second spelling)
 Spaced(n) == IF n >= 2 THEN {AsciiPattern(41, n - 1) \o <<32>>, <<32>> \o AsciiPattern(41, n - 1), AsciiPattern(41, n - 1) \o <<9>>} ELSE {}
-DictWords(max) == {w \in DictAscii : max < 0 \/ Len(w) <= max}
+UpperB(ch) == IF ch >= 97 /\ ch <= 122 THEN ch - 32 ELSE ch
+LowerB(ch) == IF ch >= 65 /\ ch <= 90 THEN ch + 32 ELSE ch
+CaseVariants(w) == {[i \in 1..Len(w) |-> UpperB(w[i])], [i \in 1..Len(w) |-> LowerB(w[i])],
+                    [i \in 1..Len(w) |-> IF i = 1 THEN UpperB(w[i]) ELSE w[i]], [i \in 1..Len(w) |-> IF i = Len(w) THEN UpperB(w[i]) ELSE w[i]]} \ {w}
+\* texts that some standard parser, classifier or normaliser treats specially (a special case that
+\* is COMPUTED -- parse::<IpAddr>(), trim(), to_lowercase(), is_numeric() -- has no literal to harvest)
+Asc(str) == str      \* (byte tuples are written out below)
+NaughtyTexts == {
+    <<49, 57, 50, 46, 49, 54, 56, 46, 49, 46, 49, 48>>,                 \* 192.168.1.10
+    <<49, 50, 55, 46, 48, 46, 48, 46, 49>>,                             \* 127.0.0.1
+    <<58, 58, 49>>, <<102, 101, 56, 48, 58, 58, 49>>,                   \* ::1  fe80::1
+    <<91, 58, 58, 49, 93>>,                                             \* [::1]
+    <<108, 111, 99, 97, 108, 104, 111, 115, 116>>,                      \* localhost
+    <<101, 120, 97, 109, 112, 108, 101, 46, 99, 111, 109, 46>>,         \* example.com.
+    <<69, 88, 65, 77, 80, 76, 69, 46, 67, 79, 77>>,                     \* EXAMPLE.COM
+    <<120, 110, 45, 45, 109, 110, 99, 104, 101, 110, 45, 51, 121, 97, 46, 100, 101>>,   \* xn--mnchen-3ya.de
+    <<104, 116, 116, 112, 115, 58, 47, 47, 97, 46, 98, 47, 99, 63, 100, 61, 49, 35, 101>>,   \* https://a.b/c?d=1#e
+    <<97, 64, 98, 46, 99>>,                                             \* a@b.c
+    <<97, 46, 98, 58, 56, 48, 56, 48>>,                                 \* a.b:8080
+    <<46>>, <<46, 46, 47, 46, 46, 47>>, <<47>>, <<37, 48, 48>>, <<37, 50, 48>>,   \* .  ../../  /  %00  %20
+    <<48>>, <<45, 49>>, <<49, 101, 53>>, <<48, 120, 49, 48>>, <<78, 97, 78>>, <<49, 46, 53>>,   \* 0 -1 1e5 0x10 NaN 1.5
+    <<116, 114, 117, 101>>, <<110, 117, 108, 108>>, <<123, 125>>, <<91, 93>>, <<34, 34>>,      \* true null {} [] ""
+    <<50, 48, 50, 54, 45, 48, 57, 45, 50, 56, 84, 48, 48, 58, 48, 48, 58, 48, 48, 90>>,          \* 2026-09-28T00:00:00Z
+    <<32, 32, 32>>, <<9>>, <<13, 10>>, <<97, 0, 98>>,                   \* blanks, CRLF, embedded NUL
+    <<196, 176>>, <<200, 186>>, <<195, 159>>, <<239, 172, 129>>, <<226, 132, 170>>, <<225, 186, 158>>,   \* U+0130 U+023A sharp-s fi-ligature Kelvin capital-sharp-s (case mappings that change length)
+    <<217, 161, 217, 162>>, <<239, 188, 145>>,                          \* Arabic-Indic digits, full-width 1
+    <<101, 204, 129>>, <<195, 169>>,                                    \* e + combining acute, precomposed e-acute
+    <<226, 128, 174, 97, 98>>, <<239, 187, 191, 97>> }                  \* right-to-left override, byte-order mark
+DictCased == DictAscii \cup UNION {CaseVariants(w) : w \in {x \in DictAscii : Len(x) <= 20}}
+DictWords(max) == {w \in DictAscii \cup NaughtyTexts : max < 0 \/ Len(w) <= max}
                   \cup {w \o AsciiPattern(41, 12) : w \in {x \in DictAscii : Len(x) <= 8 /\ (max < 0 \/ Len(x) + 12 <= max)}}
 TextAlts(max) ==
     {AsciiPattern(41, n) : n \in TextLens(max)}
     \cup (IF max < 0 \/ max >= 6 THEN {Euro \o Euro, <<0>>, <<127>> \o EncodeScalar(128512)} ELSE {})
     \cup Spaced(IF max < 0 THEN 20 ELSE max) \cup Spaced(5)
-    \cup DictWords(max)
 
 UIntAlts32 == {BN(0), BN(1), BN(2), BN(3), BN(23), BN(24), BN(255), BN(256), BN(65535), BN(65536), BN(65696), BNMaxU32}     \* 65696 = 0x0100A0
 UIntAlts64 == UIntAlts32 \cup {BNSucc(BNMaxU32), BNMaxU64}
@@ -116,7 +151,8 @@ ParamsAlts ==
      <<ALG_ES256, ALG_ES256>>, <<ALG_EdDSA, ALG_EdDSA>>, <<-257>>, <<-257, ALG_ES256>>, <<-65537, 24>>, <<0, -1>>}
 
 Alts(ty, F, host) ==
-    CASE ty.t = "u8" -> {0, 1, 2, 3, 23, 24, 255} \cup {n \in DictInts : n >= 0 /\ n <= 255}
+    \* small numbers, the head-width threshold, every single bit and a few unions of bits (flag sets)
+    CASE ty.t = "u8" -> {0, 1, 2, 3, 4, 8, 16, 32, 64, 128, 23, 24, 40, 127, 254, 255}
       [] ty.t = "u32" -> UIntAlts32
       [] ty.t = "u64" -> UIntAlts64
       [] ty.t = "i32" -> I32Alts
@@ -153,7 +189,9 @@ Alts(ty, F, host) ==
             {[packed |-> FALSE, alg |-> 0, sig |-> << >>, x5c |-> << >>]}
             \cup {[packed |-> TRUE, alg |-> a, sig |-> Pattern(48, n), x5c |-> << >>] : a \in {ALG_ES256, -257, 0}, n \in {0, 70, 77}}
             \cup {[packed |-> TRUE, alg |-> ALG_ES256, sig |-> Pattern(48, 70), x5c |-> <<c>>] :
-                     c \in {<< >>, <<Pattern(49, 0)>>, <<DerLike(300)>>, <<Pattern(49, 1024)>>}}
+                     c \in {<< >>, <<Pattern(49, 0)>>, <<DerLike(300)>>, <<Pattern(49, 1024)>>, <<DerChain(600)>>, <<DerChain(1024)>>, <<DerChainCut(40)>>, <<DerChainCut(600)>>, <<DerSeqInt(100)>>}}
+            \cup {[packed |-> TRUE, alg |-> ALG_ES256, sig |-> sg, x5c |-> << >>] :
+                     sg \in {DerSeqInt(64), DerSeqInt(72), DerSeqInt(77), DerLike(70), <<48, 68, 2, 32>> \o Rep(1, 32) \o <<2, 32>> \o Rep(2, 32), <<48, 68, 2, 32>> \o Rep(1, 32) \o <<2, 32>> \o Rep(2, 32) \o Rep(0, 7)}}
       [] ty.t = "empty" -> {<< >>}
       [] ty.t \in {"opt", "some"} -> Alts(ty.i, F, host)
 
@@ -236,8 +274,7 @@ FullOfLows(s, F, host) ==
 \* pinUvAuthParam, a particular option) -- the bases "everything present, lowest" and "everything
 \* present, default" provide it
 IsTextTy(ty) == ty.t \in {"str", "strTrunc", "strSkip"}
-WordsFor(ty, host) == {w \in DictAscii : \/ (ty.t = "str" /\ (ty.max < 0 \/ Len(w) <= ty.max))
-                                          \/ (ty.t \in {"strTrunc", "strSkip"} /\ (host \/ Len(w) <= ty.L))}
+WordsFor(ty, host) == DictWords(IF ty.t = "str" THEN ty.max ELSE IF host THEN -1 ELSE ty.L)
 DictOver(s, F, host, base) ==
     LET ms == Members(s, F) IN
     UNION {LET m   == ms[i]
@@ -250,7 +287,8 @@ DictOver(s, F, host, base) ==
                                    : w \in WordsFor(InnerTy(sms[j].ty), host)} : j \in 1..Len(sms)}
                ELSE {}
            : i \in 1..Len(ms)}
-DictLattice(s, F, host) == DictOver(s, F, host, FullOfLows(s, F, host)) \cup DictOver(s, F, host, FullOfDefaults(s, F, host))
+DictLattice(s, F, host) == DictOver(s, F, host, FullOfLows(s, F, host))
+DictLatticeDeep(s, F, host) == DictLattice(s, F, host) \cup DictOver(s, F, host, MinOf(s, F, host)) \cup DictOver(s, F, host, FullOfDefaults(s, F, host))
 
 \* the minimal value with every PAIR of members set to every combination of their extremes
 TwoAtATime(s, F, host) ==
@@ -260,6 +298,19 @@ TwoAtATime(s, F, host) ==
                           a \in Extremes(InnerTy(ms[i].ty), F, host), b \in Extremes(InnerTy(ms[j].ty), F, host)}
                       : j \in (i + 1)..Len(ms)} : i \in 1..Len(ms)}
        \cup {FullOfDefaults(s, F, host), FullOfHighs(s, F, host)}
+
+\* one member at a time over its alternatives ON A GIVEN BASE
+OneAtATimeOn(s, F, host, base) ==
+    LET ms == Members(s, F) IN
+    {base} \cup UNION {{[base EXCEPT ![ms[i].name] = WrapFor(ms[i], a)] : a \in Alts(InnerTy(ms[i].ty), F, host)} : i \in 1..Len(ms)}
+\* a member of an enumerated type (a sub-command) is a MODE switch: everything else is explored
+\* once per mode, on the minimal base and on the base with every optional member present
+PerModeOn(s, F, host, base) ==
+    LET ms    == Members(s, F)
+        modes == {i \in 1..Len(ms) : InnerTy(ms[i].ty).t = "enumU8"}
+    IN  UNION {UNION {OneAtATimeOn(s, F, host, [base EXCEPT ![ms[i].name] = WrapFor(ms[i], e)]) : e \in InnerTy(ms[i].ty).set} : i \in modes}
+PerMode(s, F, host) == PerModeOn(s, F, host, MinOf(s, F, host))
+PerModeDeep(s, F, host) == PerMode(s, F, host) \cup PerModeOn(s, F, host, FullOfLows(s, F, host))
 
 \* the minimal value with every TRIPLE of members at the upper end of their types
 ThreeAtATime(s, F, host) ==
